@@ -303,6 +303,12 @@ Proof.
   rewrite u32_small by lia. use (idx_ok keys (index - 1) ltac:(lia)). discriminate.
 Qed.
 
+Theorem gov_l_mod_k_safe : forall l k, no_panic (gov_l_mod_k l k).
+Proof.
+  intros l k. unfold gov_l_mod_k, no_panic. destruct (gov_config_k_zero k) eqn:G; [discriminate|].
+  unfold gov_config_k_zero in G. bools. destruct (k =? 0) eqn:E; [bools; contradiction|discriminate].
+Qed.
+
 Theorem ontfs_safe : forall {A} (proof : list A) x n,
   no_panic (ontfs_proof_version proof) /\ no_panic (ontfs_challenge x n) /\ no_panic (ontfs_merkle_parts proof).
 Proof.
